@@ -5274,7 +5274,10 @@ static PyObject *b_complete_struct_or_union_lock_held(CTypeDescrObject *ct,
         if (alignment < falign && do_align)
             alignment = falign;
 
-        fflags = (is_union && i > 0) ? BF_IGNORE_IN_CTOR : 0;
+        /* in a union, only the first real member is set by a sequence
+           initializer (unnamed bitfields before it don't count) */
+        fflags = (is_union && previous != (CFieldObject **)&ct->ct_extra)
+                     ? BF_IGNORE_IN_CTOR : 0;
 
         if (fbitsize < 0) {
             /* not a bitfield: common case */
